@@ -1295,6 +1295,13 @@ impl<F: FromUniformBytes<64> + Ord> MockProver<F> {
     pub fn permutation(&self) -> &Assembly {
         &self.permutation
     }
+
+    /// (H2, verification hook) Mutable access to the advice table, for table-level
+    /// adversarial search: overwrite cells after synthesis, then call `verify`.
+    #[cfg(feature = "verif-hooks")]
+    pub fn verif_advice_mut(&mut self) -> &mut Vec<Vec<CellValue<F>>> {
+        &mut self.advice
+    }
 }
 
 #[cfg(test)]
